@@ -1,10 +1,19 @@
 #!/bin/bash
 # re-applies every seeded mutation in /verif/seeded to a scratch worktree of /repo (outside /repo and /verif),
 # runs the property's quick check against it and reports whether it is still detected; removes the worktree.
+# usage: reseed_all.sh            all seeds, the properties in parallel (5 at a time; seeds of one property in sequence,
+#                                 because a check owns build/<property>)
+#        reseed_all.sh --prop Cxx the seeds of one property
 V=$(cd "$(dirname "$0")/.." && pwd)
 cd "$V"
-for d in seeded/*/; do
+if [ "$1" != "--prop" ]; then
+  (cd coq && make -j8 >/dev/null 2>&1)       # one build before the parallel checks
+  ls seeded | sed 's/-.*//' | sort -u | xargs -P 5 -I{} "$0" --prop {}
+  exit 0
+fi
+for d in seeded/$2-*/; do
   ID=$(basename $d); P=${ID%%-*}
+  if grep -q '"neutralised_by"' $d/meta.json 2>/dev/null; then echo "$ID: neutralised by a later fix (see meta.json), skipped"; continue; fi
   W=/tmp/reseed_$ID
   git -C /repo worktree add -q --detach $W HEAD 2>/dev/null || { echo "$ID: worktree failed"; continue; }
   if (cd $W && git apply "$V"/$d/patch.diff 2>/dev/null); then
